@@ -42,7 +42,18 @@ pub enum Op {
     QTfield(Vec<u8>),
     QHasTag(Vec<u8>),
     QHasVariant(Vec<u8>),
+    /// the value is copied onto an already populated value with `Clone::clone_from` (mode = byte % 3: whole value,
+    /// field by field, or plain `clone()` as the control) and that copy carries on; the logical state must not change
+    CloneOnto(u8),
 }
+
+/// Populated values a history's value is cloned onto (stale variants, attributes, keywords, tlang, tfields, tags).
+pub const DIRTY: &[&str] = &[
+    "ca-Latn-ES-valencia-1996-u-attr-zzz-ca-gregory-nu-thai-t-de-1996-k0-dvorak-m0-names-x-priv-zz",
+    "sr-Cyrl-RS-u-foo-t-en-h0-hybrid",
+    "und-x-a-b-c",
+    "abcdefgh-macos",
+];
 
 fn bj(b: &[u8]) -> Value {
     match std::str::from_utf8(b) {
@@ -94,6 +105,7 @@ impl Op {
             Op::QTfield(_) => "tfield?",
             Op::QHasTag(_) => "has_tag?",
             Op::QHasVariant(_) => "has_variant?",
+            Op::CloneOnto(_) => "clone_onto",
         }
     }
     pub fn to_json(&self) -> Value {
@@ -105,6 +117,7 @@ impl Op {
             Op::SetScript(a) | Op::SetRegion(a) => json!([k, a.as_ref().map(|x| bj(x))]),
             Op::SetVariants(v) => json!([k, bjs(v)]),
             Op::SetKeyword(a, v) | Op::SetTfield(a, v) => json!([k, bj(a), bjs(v)]),
+            Op::CloneOnto(x) => json!([k, *x]),
             _ => json!([k]),
         }
     }
@@ -140,6 +153,7 @@ impl Op {
             "tfield?" => Op::QTfield(a1()),
             "has_tag?" => Op::QHasTag(a1()),
             "has_variant?" => Op::QHasVariant(a1()),
+            "clone_onto" => Op::CloneOnto(a.get(1).and_then(|x| x.as_u64()).unwrap_or(0) as u8),
             _ => return None,
         })
     }
@@ -376,6 +390,7 @@ pub fn apply_model(m: &mut Loc, op: &Op) -> Ret {
             Ret::Bool(m.id.variants.contains(&refspec::lower(v)))
         }
         Op::Maximize | Op::Minimize => Ret::Changed(false),
+        Op::CloneOnto(_) => Ret::Unit,
     }
 }
 
@@ -493,6 +508,23 @@ pub fn apply_lib(l: &mut Locale, op: &Op) -> Ret {
             Ok(x) => Ret::Bool(l.id.has_variant(x)),
             Err(_) => Ret::Err,
         },
+        Op::CloneOnto(x) => {
+            let dirty = DIRTY[(*x as usize / 3) % DIRTY.len()];
+            if let Ok(mut d) = dirty.parse::<Locale>() {
+                match x % 3 {
+                    0 => d.clone_from(l),
+                    1 => {
+                        d.id.clone_from(&l.id);
+                        d.extensions.unicode.clone_from(&l.extensions.unicode);
+                        d.extensions.transform.clone_from(&l.extensions.transform);
+                        d.extensions.private.clone_from(&l.extensions.private);
+                    }
+                    _ => d = l.clone(),
+                }
+                *l = d;
+            }
+            Ret::Unit
+        }
     }
 }
 
@@ -638,6 +670,8 @@ fn bs(v: &[&str]) -> Vec<Vec<u8>> {
 /// The concrete operation alphabet for exhaustive short histories.
 pub fn alphabet() -> Vec<Op> {
     let mut v = vec![
+        Op::CloneOnto(0),
+        Op::CloneOnto(4),
         Op::SetLanguage(b("DE")),
         Op::SetLanguage(b("und")),
         Op::SetLanguage(b("abcd")),
@@ -792,7 +826,8 @@ pub fn random_op(r: &mut Rng) -> Op {
     // singleton, a language-shaped tag): accepted by mistake they are re-read as that other class after to_string()
     const BADV: &[&str] = &["ab", "toolongvalue", "", "a-b", "f\u{f3}o", "a b", "abc\0", "a0", "z9", "k0", "1a", "u", "t", "x", "en", "ca", "12"];
     const BADK: &[&str] = &["c", "a1x", "", "\u{e9}a", "a-", "1-", "abc", "true", "0a0", "Latn", "u", "x", "00"];
-    match r.below(34) {
+    match r.below(35) {
+        34 => Op::CloneOnto(r.below(12) as u8),
         0 => Op::SetLanguage(arg(r, LANGS, &["abcd", "a", "toolonglang", "e1", ""])),
         1 => Op::ClearLanguage,
         2 => Op::SetScript(if r.chance(1, 3) { None } else { Some(arg(r, SCRIPTS, &["la", "latin", "l4tn"])) }),
@@ -1004,6 +1039,7 @@ impl Op {
                 all.extend(v.iter().map(|b| b.as_slice()));
                 format!("{}:{}", k, xs(&all))
             }
+            Op::CloneOnto(x) => format!("{}:{}", k, xs(&[&[*x][..]])),
             _ => k.to_string(),
         }
     }
